@@ -507,7 +507,63 @@ func (a *w3Analysis) corruptions(files []*w3File) {
 		}
 		mod := append([]byte(nil), f.data...)
 		what := ""
-		switch rng.Intn(8) {
+		// half of the time the segment is as a crash leaves it: duration not yet patched into the header
+		unfinal := ""
+		if rng.Intn(2) == 0 && f.init != nil && f.init.mvhdDurOff > 0 && f.init.mvhdDurOff+4 <= len(mod) {
+			binary.BigEndian.PutUint32(mod[f.init.mvhdDurOff:], 0)
+			unfinal = " (duration not yet written)"
+		}
+		kind := rng.Intn(12)
+		if kind >= 8 {
+			// structural damage of one box at any nesting depth: size field or type
+			var all []w3Box
+			var walk func(from, to, depth int)
+			walk = func(from, to, depth int) {
+				bs, _ := w3Boxes(f.data, from, to)
+				for _, bx := range bs {
+					all = append(all, bx)
+					switch bx.typ {
+					case "moov", "trak", "mdia", "minf", "stbl", "mvex", "moof", "traf", "dinf", "edts":
+						if depth < 8 {
+							walk(bx.body, bx.end, depth+1)
+						}
+					}
+				}
+			}
+			walk(0, len(f.data), 0)
+			if len(all) == 0 {
+				continue
+			}
+			// prefer the boxes of the parts (the last part most of all)
+			bx := all[rng.Intn(len(all))]
+			if rng.Intn(2) == 0 {
+				for tries := 0; tries < 8; tries++ {
+					c := all[len(all)-1-rng.Intn(min(len(all), 12))]
+					if c.typ != "mdat" {
+						bx = c
+						break
+					}
+				}
+			}
+			switch kind {
+			case 8, 9:
+				v := []uint32{0, 1, 2, 4, 7, 8, 9, uint32(bx.end-bx.start) - 1, uint32(bx.end-bx.start) + 1, 0x7fffffff, 0xfffffff0, 0xffffffff}[rng.Intn(12)]
+				binary.BigEndian.PutUint32(mod[bx.start:], v)
+				what = fmt.Sprintf("%s%s with the size of box %s at %d set to %d", f.name, unfinal, bx.typ, bx.start, v)
+			case 10:
+				mod[bx.start+4+rng.Intn(4)] ^= 1 << uint(rng.Intn(3))
+				what = fmt.Sprintf("%s%s with the type of box %s at %d damaged", f.name, unfinal, bx.typ, bx.start)
+			default:
+				// the box emptied: header kept, payload zero-filled
+				for x := bx.body; x < bx.end && x < len(mod); x++ {
+					mod[x] = 0
+				}
+				what = fmt.Sprintf("%s%s with the payload of box %s at %d zero-filled", f.name, unfinal, bx.typ, bx.start)
+			}
+			kind = -1
+		}
+		switch kind {
+		case -1:
 		case 0: // flip a bit in a box header
 			bd := 0
 			if len(f.bounds) > 0 {
@@ -571,6 +627,9 @@ func (a *w3Analysis) corruptions(files []*w3File) {
 			mod = make([]byte, f.init.end)
 			copy(mod, f.data[:k])
 			what = fmt.Sprintf("%s header written up to %d and zero-filled", f.name, k)
+		}
+		if kind >= 0 {
+			what += unfinal
 		}
 		a.mutations++
 		root := a.materialize(files, len(files), nil)
